@@ -25,6 +25,7 @@
  * observed by wrapping malloc/free of that file only. */
 #include "common.h"
 #include <errno.h>
+#include "queue.h"
 #include <stddef.h>
 #include <sys/uio.h>
 
@@ -63,6 +64,15 @@ static int vh_nlive(void)
 #undef malloc
 #undef free
 
+/* write queue limit (linked with -Wl,--wrap=mpt_queue_prepare) */
+static size_t wq_limit = (size_t) -1;
+static const void *wq_queue;
+extern size_t __real_mpt_queue_prepare(MPT_STRUCT(queue) *, size_t);
+size_t __wrap_mpt_queue_prepare(MPT_STRUCT(queue) *q, size_t len)
+{
+	if (q == wq_queue && q->max + len > wq_limit) return 0;
+	return __real_mpt_queue_prepare(q, len);
+}
 /* the stream input (mptio): its own reply context, driven over a socketpair */
 #include <poll.h>
 #include <fcntl.h>
@@ -307,7 +317,15 @@ static void run_ctx(int ntok, char **tok)
 }
 
 /* ---- stream input case (mptio/stream/stream_input.c over a socketpair, COBS coding) ----
- *   <id> sin <idlen> <writable01> req <message-hex> <nrep> <rep1 hex|null> <rep2 hex|null> <code> ...
+ *   <id> sin <idlen> <mode> req <message-hex> <nrep> <rep1 hex|null> <rep2 hex|null> <code> ...
+ *        mode 0 read-only, 1 bidirectional + buffered, 2 bidirectional with unbuffered writing (no write queue: every
+ *        reply fails in mpt_stream_reply), L<n> = like 1 but the write queue may not grow beyond n bytes (mpt_queue_prepare
+ *        is wrapped and refuses: what a failing realloc does) - the failure paths of mpt_stream_reply
+ *        further items:  rqd <message-hex> <rep hex|null> <code>   the handler first asks for a deferred handle, then replies
+ *                        rq0 <message-hex>                         dispatch(NULL): the message is skipped
+ *                        scv <in|fmt|meta|sock|bad>                convert() of the input
+ *                        srf                                       addref, clone, unref
+ *   <id> sinx <idlen> <mode hex> <coding>     mpt_stream_input with these arguments on a socketpair: ok / null
  * the message (id bytes + payload) is COBS-framed by the harness and written to the peer end;
  * the handler replies nrep times through ev->reply (if it got one) and returns code.
  * token: <dispatch ret>|<ev.id hex>:<reply ctx 01>:<payload hex>  or -|<reply results>|<decoded frames on the wire> */
@@ -334,7 +352,7 @@ static size_t cobs_dec(const uint8_t *in, size_t n, uint8_t *out)
 	return wi;
 }
 struct sin_handler {
-	int nrep, code, called;
+	int nrep, code, called, defer;
 	const char *rep[2];
 	char seen[1024];
 	char res[64];
@@ -356,6 +374,7 @@ static int sin_handle(void *arg, MPT_STRUCT(event) *ev)
 	if (ev->reply) {
 		int k;
 		o = 0;
+		if (h->defer) o += snprintf(h->res + o, sizeof(h->res) - o, "%s,", ev->reply->_vptr->defer(ev->reply) ? "h" : "hN");
 		for (k = 0; k < h->nrep; k++) {
 			uint8_t *keep;
 			const MPT_STRUCT(message) *m = mkmsg(h->rep[k], &keep);
@@ -363,12 +382,13 @@ static int sin_handle(void *arg, MPT_STRUCT(event) *ev)
 			o += snprintf(h->res + o, sizeof(h->res) - o, "%s%d", k ? "," : "", r);
 			free(keep);
 		}
+		if (o && h->res[o - 1] == ',') h->res[o - 1] = 0;
 	}
 	return h->code;
 }
 static void run_sin(int ntok, char **tok)
 {
-	int sv[2], t = 4, wr = vh_int(tok[3]);
+	int sv[2], t = 4, md = tok[3][0] == 'L' ? 1 : vh_int(tok[3]);
 	size_t idlen = vh_int(tok[2]);
 	MPT_STRUCT(socket) sock;
 	MPT_INTERFACE(input) *in;
@@ -376,30 +396,71 @@ static void run_sin(int ntok, char **tok)
 	if (socketpair(AF_UNIX, SOCK_STREAM, 0, sv) < 0) { vh_tok("?socketpair"); return; }
 	fcntl(sv[1], F_SETFL, O_NONBLOCK);
 	sock._id = sv[0];
-	in = mpt_stream_input(&sock, wr ? (MPT_STREAMFLAG(Write) | MPT_STREAMFLAG(RdWr) | MPT_STREAMFLAG(Buffer))
-	                               : (MPT_STREAMFLAG(Read) | MPT_STREAMFLAG(ReadBuf)),
+	in = mpt_stream_input(&sock, md == 1 ? (MPT_STREAMFLAG(Write) | MPT_STREAMFLAG(RdWr) | MPT_STREAMFLAG(Buffer))
+	                           : md == 2 ? (MPT_STREAMFLAG(RdWr) | MPT_STREAMFLAG(ReadBuf))
+	                                     : (MPT_STREAMFLAG(Read) | MPT_STREAMFLAG(ReadBuf)),
 	                      MPT_ENUM(EncodingCobs), idlen);
 	if (!in) { vh_tok("?input"); return; }
 	srm = (void *) in;
-	while (t + 5 < ntok && !strcmp(tok[t], "req")) {
+	if (tok[3][0] == 'L') { wq_limit = vh_int(tok[3] + 1); wq_queue = &srm->data._wd.data; }
+	while (t < ntok) {
 		struct sin_handler h;
 		size_t n, fl;
-		uint8_t *msg = vh_unhex(tok[t + 1], &n), frame[700], wire[4096], dec[4096];
+		uint8_t *msg, frame[700], wire[4096], dec[4096];
 		ssize_t got, tot = 0;
-		int r, first = 1;
+		int r, first = 1, kind;
 		size_t pos, start;
+		const char *op = tok[t++];
+		if (!strcmp(op, "scv")) {
+			const char *w = tok[t++];
+			const MPT_STRUCT(named_traits) *tr = mpt_input_type_traits();
+			int me = tr ? (int) tr->type : (int) MPT_ENUM(TypeMetaPtr);
+			int ty = !strcmp(w, "in") ? me : !strcmp(w, "fmt") ? 0 : !strcmp(w, "meta") ? MPT_ENUM(TypeMetaPtr)
+			       : !strcmp(w, "sock") ? MPT_ENUM(TypeUnixSocket) : 'd';
+			union { void *p; int fd; const char *fmt; } u;
+			const char *part = "other";
+			memset(&u, 0, sizeof(u));
+			if (ty == MPT_ENUM(TypeUnixSocket)) u.fd = -77;
+			r = in->_vptr->meta.convertable.convert((void *) in, ty, &u);
+			if (ty == MPT_ENUM(TypeUnixSocket)) part = u.fd == -77 ? "none" : u.fd < 0 ? "nofd" : "fd";
+			else if (!u.p) part = "none";
+			else if (u.p == (void *) &srm->_in) part = "in";
+			else if (!ty && u.fmt[0] == MPT_ENUM(TypeUnixSocket) && !u.fmt[1]) part = "fmt";
+			vh_tok("v%s:%s", r == me ? "me" : r == MPT_ENUM(TypeUnixSocket) ? "sock" : r < 0 ? "err" : "other", part);
+			if (r < 0) vh_add("%d", r);
+			continue;
+		}
+		if (!strcmp(op, "srf")) {
+			uintptr_t c = in->_vptr->meta.addref((void *) in);
+			void *cl = in->_vptr->meta.clone((void *) in);
+			if (c) in->_vptr->meta.unref((void *) in);
+			vh_tok("r%d:%s", (int) c, cl ? "clone" : "noclone");
+			continue;
+		}
+		kind = !strcmp(op, "req") ? 0 : !strcmp(op, "rqd") ? 1 : !strcmp(op, "rq0") ? 2 : -1;
+		if (kind < 0 || t >= ntok) { vh_tok("?%s", op); break; }
+		msg = vh_unhex(tok[t++], &n);
 		memset(&h, 0, sizeof(h));
-		h.nrep = vh_int(tok[t + 2]);
-		h.rep[0] = tok[t + 3];
-		h.rep[1] = tok[t + 4];
-		h.code = vh_int(tok[t + 5]);
-		t += 6;
+		if (kind == 0) {
+			if (t + 3 >= ntok) { vh_tok("?req"); break; }
+			h.nrep = vh_int(tok[t]);
+			h.rep[0] = tok[t + 1];
+			h.rep[1] = tok[t + 2];
+			h.code = vh_int(tok[t + 3]);
+			t += 4;
+		} else if (kind == 1) {
+			if (t + 1 >= ntok) { vh_tok("?rqd"); break; }
+			h.defer = 1; h.nrep = 1;
+			h.rep[0] = tok[t];
+			h.code = vh_int(tok[t + 1]);
+			t += 2;
+		}
 		if (n > 250) { vh_tok("?toolong"); break; }
 		fl = cobs_enc(msg, n, frame);
 		free(msg);
 		if (write(sv[1], frame, fl) != (ssize_t) fl) { vh_tok("?write"); break; }
 		in->_vptr->next(in, POLLIN);
-		r = in->_vptr->dispatch(in, sin_handle, &h);
+		r = in->_vptr->dispatch(in, kind == 2 ? 0 : sin_handle, &h);
 		mpt_stream_flush(&srm->data);
 		vh_tok("%d|%s|%s|", r, h.called ? h.seen : "-", h.res[0] ? h.res : "-");
 		while ((got = read(sv[1], wire + tot, sizeof(wire) - tot)) > 0) tot += got;
@@ -415,6 +476,20 @@ static void run_sin(int ntok, char **tok)
 		if (first) vh_add("-");
 	}
 	in->_vptr->meta.unref((void *) in);
+	close(sv[1]);
+}
+/* mpt_stream_input argument checks */
+static void run_sinx(int ntok, char **tok)
+{
+	int sv[2];
+	MPT_STRUCT(socket) sock;
+	MPT_INTERFACE(input) *in;
+	if (socketpair(AF_UNIX, SOCK_STREAM, 0, sv) < 0) { vh_tok("?socketpair"); return; }
+	sock._id = !strcmp(tok[2], "badfd") ? 999 : sv[0];
+	errno = 0;
+	in = mpt_stream_input(&sock, strtol(tok[3], 0, 16), vh_int(tok[4]), !strcmp(tok[2], "badfd") ? 2 : (size_t) vh_int(tok[2]));
+	if (!in) { vh_tok("null"); close(sv[0]); }
+	else { vh_tok("ok"); in->_vptr->meta.unref((void *) in); }
 	close(sv[1]);
 }
 static void run_case(int ntok, char **tok)
@@ -453,6 +528,7 @@ static void run_case(int ntok, char **tok)
 	}
 	else if (!strcmp(tok[1], "ctx") && ntok >= 6) run_ctx(ntok, tok);
 	else if (!strcmp(tok[1], "sin") && ntok >= 4) run_sin(ntok, tok);
+	else if (!strcmp(tok[1], "sinx") && ntok >= 5) run_sinx(ntok, tok);
 	else vh_tok("?case");
 }
 int main(int argc, char **argv) { return vh_main(argc, argv, run_case); }
